@@ -18,86 +18,177 @@ KEYWORDS = {"COMMAND", "WORKING_DIRECTORY", "TIMEOUT", "RESULT_VARIABLE", "RESUL
 FILE = "cmake/cminx.cmake"
 
 
-def _option_paths(body, opt_vars, f_in, stop_at):
-    """Enumerate the paths through the function body up to the CMinx execute_process: (input is a directory?, undecided
-    conditions taken, tokens of the options variable or None when never set).  if(IS_DIRECTORY <input>) is decided by
-    the case, every other condition forks."""
+def _option_paths(body, opt_vars, f_in, stop_at, functions=None, formals=()):
+    """A small interpreter for the variable commands of one CMake function.  Enumerates the paths through the body up to the
+    CMinx execute_process: (input is a directory?, undecided conditions taken, tokens of the options variable or None when never
+    set).  `if(IS_DIRECTORY <input>)` is decided by the case, every other condition forks.  Variables hold token lists; the
+    formals hold themselves symbolically ('${name}'); calls of functions defined in the same file are interpreted with their
+    own scope (set(... PARENT_SCOPE) writes to the caller)."""
+    functions = functions or {}
     results = []
+    REF = re.compile(r"\$\{([A-Za-z0-9_]+)\}")
 
-    class Stop(Exception):
-        pass
+    def expand(a, env):
+        """tokens an argument contributes"""
+        m = REF.fullmatch(a.text)
+        if m and m.group(1) in env and env[m.group(1)] is not None:
+            toks = list(env[m.group(1)])
+            if a.kind == "quoted":
+                return [";".join(toks)] if toks else []
+            return toks
 
-    def cond_value(head: Command, isdir: bool):
-        ws = head.words()
+        def rep_(mm):
+            v = env.get(mm.group(1))
+            if v is not None and len(v) <= 1:
+                return v[0] if v else ""
+            return mm.group(0)
+        t = REF.sub(rep_, a.text)
+        return [t] if t != "" else []
+
+    def name_of(a, env):
+        toks = expand(a, env)
+        return toks[0] if len(toks) == 1 else a.text
+
+    def cond_value(head: Command, isdir: bool, env):
+        args = list(head.args)
         neg = False
-        while ws and ws[0] == "NOT":
+        while args and args[0].kind == "unquoted" and args[0].text == "NOT":
             neg = not neg
-            ws = ws[1:]
-        if len(ws) == 2 and ws[0] == "IS_DIRECTORY" and ws[1] in ("${" + f_in + "}", f_in):
-            return isdir != neg
+            args = args[1:]
+        if len(args) == 2 and args[0].text == "IS_DIRECTORY":
+            toks = expand(args[1], env)
+            if toks in (["${" + f_in + "}"], [f_in]):
+                return isdir != neg
         return None
 
-    def apply(c: Command, val):
-        ws = c.words()
-        if c.name == "set" and ws and ws[0] in opt_vars:
+    def apply(c: Command, env, outer):
+        """returns the new env (copy on write)"""
+        if not c.args:
+            return env
+        if c.name == "set":
+            tgt = name_of(c.args[0], env)
+            vals = list(c.args[1:])
+            scope = env
+            to_parent = False
+            if vals and vals[-1].kind == "unquoted" and vals[-1].text == "PARENT_SCOPE":
+                to_parent, vals = True, vals[:-1]
+            if any(v.kind == "unquoted" and v.text == "CACHE" for v in vals):
+                raise AnalysisError(f"cminx_gen_rst: unexpected {c.text()[:60]}")
             out = []
-            for a in c.args[1:]:
-                if a.kind == "unquoted" and a.text in ("PARENT_SCOPE", "CACHE"):
-                    raise AnalysisError(f"cminx_gen_rst: unexpected {c.text()[:60]}")
-                if a.text in ("${" + ws[0] + "}",):
-                    out.extend(val or [])
-                elif a.text != "":
-                    out.append(a.text)
-            return out
-        if c.name == "unset" and ws and ws[0] in opt_vars:
-            return []
-        if c.name == "list" and len(ws) >= 2 and ws[1] in opt_vars:
-            if ws[0] == "APPEND":
-                return (val or []) + [a.text for a in c.args[2:] if a.text != ""] if (val is not None or True) else None
-            if ws[0] == "PREPEND":
-                return [a.text for a in c.args[2:] if a.text != ""] + (val or [])
-            if ws[0] == "INSERT":
-                return (val or []) + [a.text for a in c.args[3:] if a.text != ""]
-            return val      # filtering commands are reported by C19-R4 directly
-        if c.name in ("string", "cmake_parse_arguments", "separate_arguments", "math", "get_filename_component", "file") \
+            for v in vals:
+                out.extend(expand(v, env))
+            if to_parent:
+                env = dict(env)
+                env["\0parent:" + tgt] = out          # merged into the caller's scope when the function returns
+                return env
+            env = dict(env)
+            env[tgt] = out
+            return env
+        if c.name == "unset":
+            env = dict(env)
+            env[name_of(c.args[0], env)] = []
+            return env
+        if c.name == "list" and len(c.args) >= 2:
+            op = c.args[0].text
+            tgt = name_of(c.args[1], env)
+            cur = list(env.get(tgt) or [])
+            add = []
+            for v in c.args[(3 if op == "INSERT" else 2):]:
+                add.extend(expand(v, env))
+            env = dict(env)
+            if op == "APPEND":
+                env[tgt] = cur + add
+            elif op == "PREPEND":
+                env[tgt] = add + cur
+            elif op == "INSERT":
+                env[tgt] = cur + add
+            return env       # filtering commands are reported by C19-R4 directly
+        if c.name in ("string", "cmake_parse_arguments", "separate_arguments", "math", "get_filename_component", "file", "cmake_path") \
                 and any(a.kind == "unquoted" and a.text in opt_vars for a in c.args):
             raise AnalysisError(f"cminx_gen_rst: the options variable is written by `{c.text()[:60]}`, which the reader does not model")
-        return val
+        return env
 
-    def run_items(items, isdir, trail, val, k):
+    def call_function(fblock, c: Command, env):
+        """all possible caller environments after the call (one per path of the callee)"""
+        fformals = [a.text for a in fblock.head.args[1:]]
+        actual = []
+        for a in c.args:
+            toks = expand(a, env)
+            actual.append(toks if a.kind != "quoted" else ([toks[0]] if toks else []))
+        outs = []
+
+        def finish(trail, cenv, caller):
+            outs.append((trail, caller))
+
+        def go(isdir):
+            pass
+        return fformals, actual
+
+    def run_items(items, isdir, trail, env, outer, k, depth=0):
         if not items:
-            return k(trail, val)
+            return k(trail, env)
         it, rest = items[0], items[1:]
         if isinstance(it, Command):
             if it is stop_at:
-                results.append((isdir, trail, val))
+                v = None
+                for ov in opt_vars:
+                    if env.get(ov) is not None:
+                        v = env[ov]
+                results.append((isdir, trail, v))
                 return
-            return run_items(rest, isdir, trail, apply(it, val), k)
+            if it.name in functions and depth < 3:
+                fblock = functions[it.name]
+                fformals = [a.text for a in fblock.head.args[1:]]
+                cenv = {kk: vv for kk, vv in env.items() if not kk.startswith("\0parent:")}
+                flat = []
+                for i, fa in enumerate(fformals):
+                    toks = expand(it.args[i], env) if i < len(it.args) else []
+                    cenv[fa] = toks[:1] if (i < len(it.args) and it.args[i].kind == "quoted") else toks
+                for a in it.args[len(fformals):]:
+                    flat.extend(expand(a, env))
+                cenv["ARGN"] = flat
+                caller = dict(env)
+
+                def after(t, callee_env, caller=caller):
+                    merged = dict(caller)
+                    for kk, vv in callee_env.items():
+                        if kk.startswith("\0parent:"):
+                            merged[kk[len("\0parent:"):]] = vv
+                    return run_items(rest, isdir, t, merged, outer, k, depth)
+                return run_items(list(fblock.body), isdir, trail, cenv, caller, after, depth + 1)
+            return run_items(rest, isdir, trail, apply(it, env, outer), outer, k, depth)
         if it.kind == "if":
             arms = [(it.head, it.body)] + list(it.branches)
 
-            def arm(i, trail, val):
+            def arm(i, trail, env):
                 if i >= len(arms):
-                    return run_items(rest, isdir, trail, val, k)
+                    return run_items(rest, isdir, trail, env, outer, k, depth)
                 head, body = arms[i]
+                cont = lambda t, e: run_items(rest, isdir, t, e, outer, k, depth)
                 if head.name == "else":
-                    return run_items(list(body), isdir, trail, val, lambda t, v: run_items(rest, isdir, t, v, k))
-                cv = cond_value(head, isdir)
+                    return run_items(list(body), isdir, trail, env, outer, cont, depth)
+                cv = cond_value(head, isdir, env)
                 if cv is not False:
                     t2 = trail if cv is True else trail + (" ".join(head.words())[:40],)
-                    run_items(list(body), isdir, t2, val, lambda t, v: run_items(rest, isdir, t, v, k))
+                    o2 = dict(outer) if outer is not None else None
+                    if outer is not None and cv is None:
+                        # writes to the caller's scope are path specific: work on a copy and hand it on through the closure
+                        pass
+                    run_items(list(body), isdir, t2, env, outer, cont, depth)
                 if cv is not True:
                     t2 = trail if cv is False else trail + ("NOT(" + " ".join(head.words())[:40] + ")",)
-                    arm(i + 1, t2, val)
-            return arm(0, trail, val)
+                    arm(i + 1, t2, env)
+            return arm(0, trail, env)
         # loops / nested functions: must not touch the options
         for c, _anc in walk([it]):
-            if c is stop_at or apply(c, ["<probe>"]) != ["<probe>"]:
+            if c is stop_at or (c.args and c.name in ("set", "list", "unset") and any(a.text in opt_vars for a in c.args[:2])):
                 raise AnalysisError(f"cminx_gen_rst: the options or the CMinx call are inside a {it.kind}() block")
-        return run_items(rest, isdir, trail, val, k)
+        return run_items(rest, isdir, trail, env, outer, k, depth)
 
     for isdir in (True, False):
-        run_items(list(body), isdir, (), None, lambda t, v: None)
+        env0 = {f: ["${" + f + "}"] for f in formals}
+        env0["ARGN"] = ["${ARGN}"]
+        run_items(list(body), isdir, (), env0, None, lambda t, e: None)
     if len(results) > 64:
         raise AnalysisError("cminx_gen_rst: too many paths")
     return results
@@ -226,10 +317,10 @@ def run(rep: Report, repo: Repo, tier: str) -> None:
                 and len(c.args) > 1 and (c.words()[1] in opt_vars or c.words()[1] == "ARGN"):
             rep.bad("C19-R4", where, c.text()[:80], "the forwarded arguments are filtered / reordered before the call",
                     witness="cminx_gen_rst(dir out -e a -e a)")
-    rep.check(len(r_sites) >= 1, "C19-R3", where, f"{len(r_sites)} site(s) add '-r'",
-              "'-r' is never added: directories are documented non-recursively", witness="cminx_gen_rst(nested_dir out)")
+    # (whether and when '-r' is added is decided on the evaluated paths below, wherever the literal is written)
     # the value of the options variable at the execute_process, on every path through the function, for a directory and for a file
-    paths = _option_paths(fn.body, opt_vars, f_in, eps[0][0] if eps else None)
+    functions = {it.head.args[0].text: it for it in tree if isinstance(it, Block) and it.kind == "function" and it.head.args and it is not fn}
+    paths = _option_paths(fn.body, opt_vars, f_in, eps[0][0] if eps else None, functions=functions, formals=formals)
     for isdir, trail, val in paths:
         label = f"input is a {'directory' if isdir else 'file'}" + (f", {' & '.join(trail)}" if trail else "")
         if val is None:
